@@ -216,6 +216,69 @@ def run(ctx):
                     d["_expect_fail"] = True
                 dops.append(("jwe.dec", d))
                 dops.append(("jwe.dec_jwk", dict(d)))
+        # the same object handed over WITHOUT naming a recipient: the library walks the list itself; a tampered entry of
+        # the key's own recipient fails, a tampered entry of the OTHER recipient does not disturb this key
+        bad1 = dict(r1, encrypted_key=flip_char(r1["encrypted_key"], 3))
+        for why, rcps, key, ok in (("general form, recipient 1 tampered, key 1", [r0, bad1], k1, False), ("general form, recipient 0 tampered, key 1", [bad0, r1], k1, True),
+                                   ("general form, recipient 0 tampered, key 0", [bad0, r1], k0, False), ("general form, recipient 1 tampered, key 0", [r0, bad1], k0, True),
+                                   ("general form, recipients swapped, key 0", [r1, r0], k0, True), ("general form, only the other recipient left, key 0", [r1], k0, False),
+                                   ("general form, tag changed, key 1", None, k1, False)):
+            t2 = dict(tok, recipients=rcps) if rcps is not None else dict(tok, tag=flip_char(tok["tag"], 0))
+            d = {"jwe": t2, "jwk": key, "rand": rng.randbytes(600).hex(), "_why": why}
+            if ok:
+                d["_pt"] = a["pt"]
+            else:
+                d["_expect_fail"] = True
+            dops.append(("jwe.dec", d))
+    # tokens that have NO protected header (names in the shared unprotected header), with and without aad: the AAD is
+    # "" resp. "." || aad - every change to aad, and a protected header appearing from nowhere, must fail
+    for w, kn, enc in (("A128KW", "oct-16", "A128CBC-HS256"), ("A256GCMKW", "oct-32", "A256GCM"), ("dir", None, "A128GCM"), ("ECDH-ES", "EC-P256", "A192CBC-HS384")):
+        key = pool[kn] if kn else dict(fresh(E.CEKLEN[enc]), alg=enc)
+        for aad in (None, "YWFk", ""):
+            jwe = {"unprotected": {"alg": w, "enc": enc}}
+            if aad is not None:
+                jwe["aad"] = aad
+            r = ctx.real([("jwe.enc", {"jwe": jwe, "jwk": key, "pt": b"no protected header".hex(), "rand": rng.randbytes(300).hex()})])[0]
+            if not r.get("ok") or "protected" in r["jwe"]:
+                ctx.pfails.append(("dec:setup", "encryption without protected header refused or gained one: %s" % json.dumps(r)[:200], "jwe.enc", {}, r))
+                continue
+            tok = r["jwe"]
+            muts = [("unmutated", tok, True), ("protected e30 added", dict(tok, protected="e30"), False), ("protected empty text added", dict(tok, protected=""), False),
+                    ("tag char 0", dict(tok, tag=flip_char(tok["tag"], 0)), False), ("iv char 0", dict(tok, iv=flip_char(tok["iv"], 0)), False)]
+            if aad is None:
+                muts += [("aad added", dict(tok, aad="QQ"), False), ("aad added empty", dict(tok, aad=""), False)]
+            else:
+                muts += [("aad removed", {k: v for k, v in tok.items() if k != "aad"}, False), ("aad extended", dict(tok, aad=aad + "QQ"), False)]
+                if aad:
+                    muts += [("aad char 0", dict(tok, aad=flip_char(aad, 0)), False), ("aad emptied", dict(tok, aad=""), False)]
+                else:
+                    muts += [("aad set", dict(tok, aad="YQ"), False)]
+            for why, t2, ok in muts:
+                d = {"jwe": t2, "jwk": key, "rand": rng.randbytes(600).hex(), "_why": "no protected header, %s/%s aad=%r: %s" % (w, enc, aad, why)}
+                d["_pt" if ok else "_expect_fail"] = b"no protected header".hex() if ok else True
+                dops.append(("jwe.dec", d))
+    # the protected header re-spelled: same JSON value, different text - the tag covers the text
+    for tok, a, side in [b for b in base if b[2] == "jose"][:: (6 if quick else 1)]:
+        try:
+            pobj = json.loads(b64d(tok["protected"]))
+        except Exception:
+            continue
+        for why, txt in (("space inserted", json.dumps(pobj, separators=(",", ": "))), ("members reversed", json.dumps(dict(reversed(list(pobj.items()))), separators=(",", ":"))),
+                         ("a member duplicated", "{" + json.dumps(pobj, separators=(",", ":"))[1:-1] + "," + json.dumps(pobj, separators=(",", ":"))[1:]),
+                         ("escaped", json.dumps(pobj, separators=(",", ":")).replace("A", "\\u0041", 1))):
+            if b64u(txt.encode()) == tok["protected"]:
+                continue
+            dops.append(("jwe.dec", {"jwe": dict(tok, protected=b64u(txt.encode())), "jwk": a["jwk"], "rand": rng.randbytes(600).hex(), "_expect_fail": True,
+                                     "_why": "%s %s/%s: protected header re-spelled (%s)" % (side, a["_wrap"], a["_enc"], why)}))
+    # passwords that differ only behind a NUL / are a prefix
+    rp = ctx.real([("jwe.enc", {"jwe": {"protected": {"alg": "PBES2-HS256+A128KW", "enc": "A128GCM", "p2c": 1000}}, "jwk": "pass\u0000word", "pt": "6869", "rand": rng.randbytes(300).hex()})])[0]
+    if rp.get("ok"):
+        for pw, ok in (("pass\u0000word", True), ("pass", False), ("pass\u0000", False), ("pass\u0000other", False)):
+            # (a password extended by NUL bytes is the same HMAC key - HMAC pads short keys with zeros - so PBKDF2 gives
+            #  the same result for it by construction: not generated as a "wrong key")
+            d = {"jwe": rp["jwe"], "jwk": pw, "rand": "00" * 600, "_why": "password %r against a token made with 'pass\\0word'" % pw}
+            d["_pt" if ok else "_expect_fail"] = "6869" if ok else True
+            dops.append(("jwe.dec", d))
     # streaming decryption: last byte of the ciphertext changed => done must report failure
     for tok, a, side in base[:: (4 if quick else 1)]:
         cekop = ("jwe.dec_jwk", {"jwe": tok, "jwk": a["jwk"], "rand": "00" * 600})
